@@ -69,7 +69,15 @@ func (m *ImportMap) Find(shortName string) *Import {
 		}
 	}
 
-	// Priority 2: Search by actual package name
+	// Priority 2: Search by actual package name. An import WITHOUT alias binds that name in
+	// the file; an aliased import of a package with the same declared name does not, so it
+	// is only a fallback (and the result does not depend on the order of the imports)
+	for i := range *m {
+		imp := &(*m)[i]
+		if imp.Alias == "" && imp.PackageName != "" && imp.PackageName == shortName {
+			return imp
+		}
+	}
 	for i := range *m {
 		imp := &(*m)[i]
 		if imp.PackageName != "" && imp.PackageName == shortName {
